@@ -141,7 +141,7 @@ func encodePurity(c *Ctx, rule string) {
 				if !ok {
 					continue
 				}
-				if par, isPar := fa.X.(*ssa.Parameter); isPar && par.Name() == "header" {
+				if par, isPar := fa.X.(*ssa.Parameter); isPar && vname(par) == "header" {
 					fld := fieldName(fa.X.Type(), fa.Field)
 					c.Ob(rule, FuncName(fn)+"#header."+fld, st.Pos(), fld == "Type" || fld == "Attachments", "Encode writes header."+fld+" of the caller's header (only Type and Attachments are derived by encoding)")
 				}
